@@ -285,8 +285,19 @@ T __CPROVER_uninterpreted_int2_5_5(T, T, T, T, T, T, T, T, T, T, T);
 #define INT2_5_5(a0, a1, a2, a3, a4, b0, b1, b2, b3, b4, h) ((a0) * (b0) * 2 * (h) / 1 + (a0) * (b2) * 2 * (h)*(h)*(h) / 3 + (a0) * (b4) * 2 * (h)*(h)*(h)*(h)*(h) / 5 + (a1) * (b1) * 2 * (h)*(h)*(h) / 3 + (a1) * (b3) * 2 * (h)*(h)*(h)*(h)*(h) / 5 + (a2) * (b0) * 2 * (h)*(h)*(h) / 3 + (a2) * (b2) * 2 * (h)*(h)*(h)*(h)*(h) / 5 + (a2) * (b4) * 2 * (h)*(h)*(h)*(h)*(h)*(h)*(h) / 7 + (a3) * (b1) * 2 * (h)*(h)*(h)*(h)*(h) / 5 + (a3) * (b3) * 2 * (h)*(h)*(h)*(h)*(h)*(h)*(h) / 7 + (a4) * (b0) * 2 * (h)*(h)*(h)*(h)*(h) / 5 + (a4) * (b2) * 2 * (h)*(h)*(h)*(h)*(h)*(h)*(h) / 7 + (a4) * (b4) * 2 * (h)*(h)*(h)*(h)*(h)*(h)*(h)*(h)*(h) / 9)
 #endif
 
-/* ---- generator: the l-th knot */
+/* ---- generator: the l-th knot; BS_POS(l) is the ghost position of knot l in the grid (grid = knots without duplicates).
+ *      GENINV(gen, l): the instance at l of the generator's class invariant -- knots non-decreasing, every knot a grid
+ *      point, consecutive distinct knots are neighbouring grid points (established by the constructor from the contract
+ *      of std::unique, assumed as instances by the member functions) */
 #define KN(gen, l) ((gen)._knots.d[l])
+struct bs_pos_t { size_t p[BS_CAP]; } BS_POSS;
+#define BS_POS(l) (BS_POSS.p[l])
+#define GENINV(gen, l) (!((l) < BS_CAP && (l) + 1 < (gen)._knots.n) || \
+  (KN(gen, l) <= KN(gen, (l) + 1) && BS_POS(l) < GN((gen)._grid) && GRID((gen)._grid, BS_POS(l)) == KN(gen, l) && \
+   BS_POS((l) + 1) < GN((gen)._grid) && GRID((gen)._grid, BS_POS((l) + 1)) == KN(gen, (l) + 1) && \
+   BS_POS((l) + 1) == BS_POS(l) + (KN(gen, l) < KN(gen, (l) + 1) ? 1 : 0)))
+/* every element of a vector of splines is a valid spline on (the object) grid g */
+#define ALLVALID_AT(v, g, q) (!((q) < (v).n) || (spline_valid((v).d[q]) && same_grid_obj(SP_GRID((v).d[q]), g)))
 
 /* selection between the quantified form of a statement and its written-out small-instance form */
 #if BS_CAP > 16
